@@ -58,7 +58,7 @@ def concretise(job, unit, res, workdir, log):
                 pr = lw.proto(lw.fn_info[h]['node']).replace(h + '(', h + '_cexstub(', 1)
                 fwd += pr + ';\n'
                 text += '\n' + pr + '\n{\n' + job['specs'][h]['cex_stub'] + '\n}\n'
-            elif rec:
+            elif h in lw.fn_info:
                 out['note'] = 'no cex_stub for recursive callee %s' % h
                 return out
         if fwd:
